@@ -86,11 +86,17 @@ def run(ctx):
         Pn = [10 ** x for x in pts]
         smooth = rng.choice([0, 1, 5, 10, 10, 20, 33, 50, 100])
         limit = 10000.0
-        prm = dict(kind='npoint', T=Ts, P_points=Pn, smooth=smooth, n=n, pressure=P, mode=mode)
+        # the end nodes: the ends of the atmosphere (-1, the default) or pressures of their own
+        Psurf, Ptop = -1, -1
+        if rng.random() < 0.3:
+            Psurf = float(P[0]) * 10 ** rng.uniform(-0.3, 0.5)
+        if rng.random() < 0.3:
+            Ptop = float(P[-1]) * 10 ** rng.uniform(-0.5, 0.3)
+        prm = dict(kind='npoint', T=Ts, P_points=Pn, smooth=smooth, n=n, pressure=P, mode=mode, P_surface=Psurf, P_top=Ptop)
         if rng.random() < 0.4:
             # the nodes arrive through the fitting parameters (as in a retrieval), in a random order, on a profile
             # constructed with other values
-            tp = NPoint(T_surface=rng.uniform(300, 2500), T_top=rng.uniform(300, 2500), P_surface=-1, P_top=-1,
+            tp = NPoint(T_surface=rng.uniform(300, 2500), T_top=rng.uniform(300, 2500), P_surface=Psurf, P_top=Ptop,
                         temperature_points=[rng.uniform(300, 2500) for _ in Ts[1:-1]],
                         pressure_points=[10 ** rng.uniform(lo_p, hi_p) for _ in Pn], smoothing_window=smooth,
                         limit_slope=limit)
@@ -104,7 +110,7 @@ def run(ctx):
             ctx.count('npoint:nodes-set-through-fitting-parameters')
             prm = dict(prm, nodes_set_in_order=[w_[0] for w_ in writes])
         else:
-            tp = NPoint(T_surface=Ts[0], T_top=Ts[-1], P_surface=-1, P_top=-1, temperature_points=list(Ts[1:-1]),
+            tp = NPoint(T_surface=Ts[0], T_top=Ts[-1], P_surface=Psurf, P_top=Ptop, temperature_points=list(Ts[1:-1]),
                         pressure_points=list(Pn), smoothing_window=smooth, limit_slope=limit)
         tp.initialize_profile(planet, n, P)
         try:
@@ -116,7 +122,7 @@ def run(ctx):
         except Exception as e:
             ctx.violation('npoint-raises', 'NPoint.profile raised %r (%d layers, window %r)' % (e, n, smooth), replay=prm)
             continue
-        nodesP = [P[0]] + Pn + [P[-1]]
+        nodesP = [P[0] if Psurf < 0 else Psurf] + Pn + [P[-1] if Ptop < 0 else Ptop]
         inverted = any(nodesP[j] <= nodesP[j + 1] for j in range(len(nodesP) - 1))
         if res == 'ok':
             if inverted:
@@ -156,6 +162,15 @@ def run(ctx):
             oracle_range(ctx, 'array', prof, n, arr, prm)
             e_ta.append('run_temp_array %s %s' % (C.natlit(n), C.qlist(arr)))
             m_ta.append(dict(prof=prof, rp=prm, key=('array', n, la, arr[0]), nontriv=la != n))
+            # the same table given top-down with reverse=True is the same profile
+            tr = TemperatureArray(tp_array=list(arr[::-1]), reverse=True)
+            tr.initialize_profile(planet, n, P)
+            ctx.case(('array_rev', n, la, arr[0]))
+            if not np.array_equal(np.array(tr.profile, float), prof):
+                ctx.violation('array-reverse', 'TemperatureArray(reversed table, reverse=True) differs from the table '
+                              'given bottom-up', replay=dict(kind='array_rev', arr=arr, n=n))
+            else:
+                ctx.validated()
             # with pressure points and from a text file (oracle only)
             pp = np.sort(10 ** np.array([rng.uniform(lo_p - 1, hi_p + 1) for _ in range(la)]))[::-1]
             tb = TemperatureArray(tp_array=list(arr), p_points=list(pp))
